@@ -978,10 +978,11 @@ BIG = ("Pile", "Pile3", "Columns", "Columns3", "Overlay", "Padding", "Filler", "
 
 def _bounds(tier):
     """(leaf max cols, rows), (nested max cols, rows), depth-3 sample per encoding, stride of the big families
-    in the two non-UTF-8 encodings (quick only: every third tree, offset by the encoding)."""
+    in the two non-UTF-8 encodings (quick: every third tree, thorough: every second, offset by the encoding;
+    all leaf families except -- in quick -- Edit and BarGraph are complete in all three encodings)."""
     if tier == "quick":
         return (6, 4), (5, 3), 60, 3
-    return (6, 4), (6, 4), 1500, 1
+    return (6, 4), (6, 4), 1000, 2
 
 
 def _plan(tier, seed):
@@ -995,7 +996,7 @@ def _plan(tier, seed):
             for fam, exprs in group.items():
                 fams[kind].add(fam)
                 exprs = list(dict.fromkeys(exprs))
-                if ei and stride > 1 and fam in BIG:
+                if ei and stride > 1 and fam in BIG and (kind == "d2" or tier == "quick"):
                     exprs = exprs[ei % stride :: stride]
                 counts[kind] += len(exprs)
                 step = 40 if kind == "d1" else 12
@@ -1029,11 +1030,12 @@ def run(tier="quick", seed=0):
                 stats[k] = stats.get(k, 0) + v
     wall = time.time() - t0
     quick = tier == "quick"
+    strided = f" (the big families {', '.join(BIG)}: every {stride}{'rd' if stride == 3 else 'nd'} tree in the two non-UTF-8 encodings)" if stride > 1 else ""
     bound = (
         f"{counts['d1']} leaf trees (families {', '.join(sorted(fams['d1']))}) and {counts['d2']} depth-2 trees "
         f"(every decoration/container family {', '.join(sorted(fams['d2']))} over {len(child_pool('utf8', not quick))} representative children; "
         f"{'covering option sets (every option value, every pair of the two main options)' if quick else 'full products of the option sets on the core children, covering sets on the rest'}, see `decorations`/`containers`), "
-        f"counted per encoding and summed over utf-8, euc-jp, iso8859-1{f' (the big families {BIG}: every {stride}rd tree in the two non-UTF-8 encodings)' if stride > 1 else ''}; "
+        f"counted per encoding and summed over utf-8, euc-jp, iso8859-1{strided}; "
         f"sizes: fixed (), flow 1..{leaf_sz[0]}, box 1..{leaf_sz[0]} x 1..{leaf_sz[1]} for leaves, flow 1..{nest_sz[0]}, box 1..{nest_sz[0]} x 1..{nest_sz[1]} for nested trees, among the modes sizing() reports; {'focus False, and True for trees with a selectable widget' if quick else 'both focus values'}; "
         f"fresh widget per evaluation; judged: the {stats.get('wellformed_tree_modes', 0)} (tree, encoding, mode) triples that are well-formed (every child asked only for modes it reports, per urwid's documentation), "
         f"{stats.get('illformed_tree_modes', 0)} reported-but-ill-formed triples go to the auxiliary check; {stats.get('unbuildable', 0)} expressions refused by a constructor and skipped"
@@ -1073,7 +1075,10 @@ def replay(check_name, case):
         code = compile(case["expr"], "<tree>", "eval")
         return judge(code, mode, size, bool(case["focus"]))
 
-    res, obs = _with_encoding(enc, body)
+    try:
+        res, obs = _with_encoding(enc, body)
+    except Exception as e:  # noqa: BLE001  -- the expression does not even build: nothing to confirm
+        return {"outcome": "not-reproduced", "detail": {"expr": case["expr"], "why": f"building the tree raised {_exc(e)}"}}
     if clause in res:
         ok, why = res[clause][0], res[clause][1]
     else:
